@@ -72,6 +72,13 @@ def configs(tier, family):
                         out.append({"transport": tr, "buffer": rng.choice([0, 1, 8]), "senders": rng.choice([1, 2]),
                                     "count": 14, "payload": "small", "delay": 0, "initiator": ini, "busy": True,
                                     "seed": vlib.seed() * 100 + rep, "stall": kind})
+        # the client finishes while the server is in the middle of a burst towards it and the client's streams
+        # are consumed by a dispatch loop: more envelopes are in flight than the streams hold, and the server's
+        # 'finished' is behind them (the client has to keep consuming until it arrives)
+        for rep in range(4 if tier == "quick" else 24):
+            out.append({"transport": "inproc" if rep % 2 == 0 else TRANSPORTS[1 + (vlib.seed() + rep) % 4], "buffer": rng.choice([0, 1]),
+                        "senders": 4, "count": 200, "payload": "small", "delay": 0, "initiator": "cfinish",
+                        "busy": True, "seed": vlib.seed() * 100 + 60 + rep})
     if family == "C04":   # delivery: more traffic shapes, orderly end only
         extra = []
         for c in out:
